@@ -1,7 +1,7 @@
 """symx.ctx - symbolic harness context (z3)."""
 import z3
 from . import core
-from .api import CtxBase
+from .api import CtxBase, DecoyStop
 from .core import SymInt, SymBool, SymBytes, SymStr, SymChoice, SymStream, EngineLimit, PathAbort
 
 
@@ -16,9 +16,26 @@ class SymCtx(CtxBase):
         self.inconclusive = []  # (label, reason)
         self.discharged = {}    # label -> count
         self.trivial = 0
+        self._signed_names = set()
+
+    # ---- decoy runs (api.run_harness) ----------------------------------------------
+    def decoy_ctx(self, dcfg):
+        sub = SymCtx(dcfg, self.ex)
+        sub.prefix = 'decoy.'
+        sub.mute = True
+        sub.inputs = self.inputs            # its inputs are inputs of the path (replayed with it)
+        sub._signed_names = self._signed_names
+        return sub
+
+    def decoy_begin(self):
+        self.ex.no_alternatives = True      # one path through the decoy: its branches are decided by the current model, not explored
+
+    def decoy_end(self):
+        self.ex.no_alternatives = False
 
     # ---- inputs -----------------------------------------------------------------
     def uint(self, name, bits):
+        name = self.prefix + name
         s, v = core.fresh_uint(name, bits)
         self.inputs[name] = v
         return s
@@ -32,6 +49,7 @@ class SymCtx(CtxBase):
     def int_range(self, name, lo, hi):
         if lo == hi:
             return lo
+        name = self.prefix + name
         if lo >= 0:
             bits = max(hi.bit_length(), 1)
             v = z3.BitVec(name, bits)
@@ -56,6 +74,7 @@ class SymCtx(CtxBase):
         return SymInt(z3.simplify(core.ext(e, core.bits_for(lo, hi))), lo, hi)
 
     def bool(self, name):
+        name = self.prefix + name
         v = z3.BitVec(name, 1)
         self.inputs[name] = v
         return SymBool(v == 1)
@@ -68,6 +87,20 @@ class SymCtx(CtxBase):
 
     # ---- logic ------------------------------------------------------------------
     def assume(self, cond):
+        if self.mute:
+            # decoy: never make the path infeasible - stop the decoy instead
+            if not core.is_sym(cond):
+                if not cond:
+                    raise DecoyStop()
+                return
+            c = core.zb(cond)
+            saved = self.ex.model
+            r = self.ex.check(c)
+            if r != z3.sat:
+                self.ex.model = saved
+                raise DecoyStop()
+            self.ex.add(c)
+            return
         self.ex.assume(core.zb(cond) if core.is_sym(cond) else bool(cond))
 
     def fork(self, cond):
@@ -87,19 +120,20 @@ class SymCtx(CtxBase):
         out = {}
         for name, v in self.inputs.items():
             val = model.eval(v, model_completion=True)
-            out[name] = val.as_signed_long() if name in self._signed else val.as_long()
+            out[name] = val.as_signed_long() if name in self._signed_names else val.as_long()
         return out
 
-    _signed = frozenset()
-
     def sint(self, name, bits):
+        name = self.prefix + name
         s, v = core.fresh_sint(name, bits)
         self.inputs[name] = v
-        self._signed = self._signed | {name}
+        self._signed_names.add(name)
         return s
 
     def check(self, label, cond):
         """obligation: cond must hold for every input on this path"""
+        if self.mute:
+            return True
         self.nchecks += 1
         ex = self.ex
         if not core.is_sym(cond):
